@@ -13,6 +13,7 @@
 
 #include "quill/DeferredFormatCodec.h"
 #include "quill/DirectFormatCodec.h"
+#include "quill/Frontend.h"
 #include "quill/Logger.h"
 #include "quill/StringRef.h"
 #include "quill/core/Codec.h"
@@ -62,6 +63,23 @@
 // =====================================================================================================================
 // User-defined types and enums of the catalog (formatter + codec), shared by all catalog TUs
 // =====================================================================================================================
+// frontend flavour: default options (unbounded blocking), or with -DFMTCAT_DROPPING a small BoundedDropping queue so that
+// statements are really DROPPED between accepted ones (size cache / stream state after a drop belongs to C04 as well)
+#if defined(FMTCAT_DROPPING)
+struct FmtcatFrontendOptions
+{
+  static constexpr quill::QueueType queue_type = quill::QueueType::BoundedDropping;
+  static constexpr size_t initial_queue_capacity = 1024;
+  static constexpr uint32_t blocking_queue_retry_interval_ns = 800;
+  static constexpr size_t unbounded_queue_max_capacity = 1024;
+  static constexpr quill::HugePagesPolicy huge_pages_policy = quill::HugePagesPolicy::Never;
+};
+#else
+using FmtcatFrontendOptions = quill::FrontendOptions;
+#endif
+using FFrontend = quill::FrontendImpl<FmtcatFrontendOptions>;
+using FLogger = quill::LoggerImpl<FmtcatFrontendOptions>;
+
 namespace fmtcat
 {
 enum Color : int { Red = 0, Green = 1, Blue = 2 };               // unscoped, own formatter (custom_type on the backend)
@@ -241,7 +259,7 @@ struct Ctx
 {
   verif::Choices& c;
   verif::Report& r;
-  quill::Logger* logger{nullptr};
+  FLogger* logger{nullptr};
   quill::detail::SizeCacheVector* cache{nullptr};
   quill::DynamicFormatArgStore* store{nullptr};
   char const* shape{""};
